@@ -53,8 +53,8 @@ type blockstore struct {
 }
 
 func (bs *blockstore) Put(block ipld.Block) error {
-	bs.RLock()
-	defer bs.RUnlock()
+	bs.Lock()
+	defer bs.Unlock()
 
 	_, ok := bs.blks[block.Link().String()]
 	if ok {
@@ -68,22 +68,31 @@ func (bs *blockstore) Put(block ipld.Block) error {
 }
 
 func (bs *blockstore) Get(link ipld.Link) (ipld.Block, bool, error) {
-	bs.Lock()
-	defer bs.Unlock()
+	bs.RLock()
+	defer bs.RUnlock()
 	return bs.blockreader.Get(link)
 }
 
+// Iterator iterates over a snapshot of the store taken under the read lock:
+// the returned function touches only the snapshot, so it may be consumed
+// while other goroutines Put.
 func (bs *blockstore) Iterator() iter.Seq2[ipld.Block, error] {
-	bs.Lock()
-	defer bs.Unlock()
+	bs.RLock()
+	defer bs.RUnlock()
+	keys := make([]string, len(bs.keys))
+	copy(keys, bs.keys)
+	blks := make([]ipld.Block, len(keys))
+	oks := make([]bool, len(keys))
+	for i, k := range keys {
+		blks[i], oks[i] = bs.blks[k]
+	}
 	return func(yield func(ipld.Block, error) bool) {
-		for _, k := range bs.keys {
-			v, ok := bs.blks[k]
+		for i, k := range keys {
 			var err error
-			if !ok {
+			if !oks[i] {
 				err = fmt.Errorf("missing block for key: %s", k)
 			}
-			if !yield(v, err) {
+			if !yield(blks[i], err) {
 				return
 			}
 		}
